@@ -111,6 +111,24 @@ PROBLEMS = []
 
 
 # ------------------------------------------------------------------ operations used inside lemmas
+def _not_a_verdict(e):
+    """a RecursionError / MemoryError (also nested in cattrs' exception groups) says the harness or its stubs went
+    wrong, not that the converter rejected the value: let it surface as an error of the lemma"""
+    stack = [e]
+    while stack:
+        x = stack.pop()
+        if isinstance(x, (RecursionError, MemoryError)):
+            raise x
+        stack.extend(getattr(x, "exceptions", ()) or ())
+
+
+def special_floats(cid):
+    """the special values that lie outside the range of the case (nan and the infinities always do)"""
+    c = field_cases()[cid]
+    lo, hi = c.detail["lo"], c.detail["hi"]
+    return [v for v in SPECIAL_FLOATS if not (lo <= v <= hi)]
+
+
 def conv_accepts(cid, value):
     """structure the template with `value` at the case's key through the real generated function.
     returns (accepted, attribute value or None)"""
@@ -119,7 +137,8 @@ def conv_accepts(cid, value):
     j[c.wire] = value
     try:
         obj = c.hook(j, c.cls)
-    except Exception:
+    except Exception as e:
+        _not_a_verdict(e)
         return (False, None)
     return (True, getattr(obj, c.attr))
 
@@ -155,6 +174,7 @@ def roundtrip_field(cid, value):
 
 
 MISSING = object()
+SPECIAL_FLOATS = [float("inf"), float("-inf"), float("nan"), 1.7976931348623157e308, -1.7976931348623157e308, 2147483648.0, 2147483647.5, -2147483649.0, -2147483648.5, -1.0, -0.5, 4294967296.0, 1e10, 9.3e18]
 
 
 # ------------------------------------------------------------------ integer sites reached through a parent (C12 contexts)
@@ -284,7 +304,8 @@ def ctx_accepts(xid, value):
     cc = ctx_cases()[xid]
     try:
         cc.hook(_ctx_json(cc, value), cc.root_cls)
-    except Exception:
+    except Exception as e:
+        _not_a_verdict(e)
         return False
     return True
 
